@@ -86,6 +86,8 @@ def _scenario(kind, n, c, p_size, bad, ev, want):
     w.feed()
     # any order of taking / finishing / result handling
     for _ in range(K):
+        if not p._outqueue.q and not p._inqueue.q and all(x.state != 'busy' for x in p._pool):
+            break                       # nothing can happen any more (e.g. empty input)
         e = nd.draw(0, 2)
         if e < 2:
             if e >= len(p._pool):
